@@ -1063,7 +1063,8 @@ func init() {
 //
 // klauspost's encoder/decoder cannot be encoded.  Model: a frame is the zstd
 // magic followed by the payload; decoding anything without the magic fails;
-// decoding a frame with symbolic payload bytes may also fail (corrupt frame).
+// decoding a frame with symbolic payload bytes may also fail (corrupt frame), with
+// or without partial output.
 
 var zstdMagic = []byte{0x28, 0xB5, 0x2F, 0xFD}
 
@@ -1109,14 +1110,14 @@ func init() {
 				return tuple{append(dst, payload...), iface{}}
 			}
 		}
-		for _, b := range payload {
-			if isSym(b) {
-				// a frame with attacker-controlled content may be rejected by the real decoder
-				if i.choose(2, "zstd-corrupt") == 1 {
-					return bad()
-				}
-				break
-			}
+		// a frame this process did not produce may be rejected by the real decoder - before
+		// producing anything, or (like the real DecodeAll) after handing back the bytes decoded so
+		// far together with the error
+		switch i.choose(3, "zstd-corrupt") {
+		case 1:
+			return bad()
+		case 2:
+			return tuple{append(dst, payload...), i.newError(fr, "zstd: corrupt frame after partial output (model)")}
 		}
 		return tuple{append(dst, payload...), iface{}}
 	})
